@@ -775,13 +775,21 @@ static void prepare_nfkd(const uint8_t* s) {
     }
 }
 
+static void emit_ret_common(const char* op);
+static void emit_ret_end(void);
+
 static void reset_all(void) {
-    /* free every live seed with a quiet, known dependency table */
+    /* free every live seed with a known dependency table; the injection is an API call like any other
+       (a crash of the library's self-test here is the library's, and so is anything it does in there) */
     polyseed_dependency d = make_deps("AAAAAAAA");
-    /* an API call like any other: a crash of the library's self-test here is the library's */
+    fprintf(out, "{\"e\":\"Begin\",\"op\":\"Inject\",\"set\":\"AAAAAAAA\""); eol();
+    nev = 0;
     cur_op = "inject"; in_api = 1;
     quiet_normalise = 1; polyseed_inject(&d); quiet_normalise = 0;
     in_api = 0;
+    flush_queue();
+    nresidue = 0;
+    { bool keep = want_projection; want_projection = false; emit_ret_common("Inject"); emit_ret_end(); want_projection = keep; }
     for (int r = 0; r < NREG; ++r) if (hregs[r].p) { polyseed_free(hregs[r].p); hregs[r].p = NULL; }
     nev = 0; nblk = 0; next_blk_id = 1; next_handle_id = 1;
     polyseed_enable_features(0);
@@ -1017,8 +1025,8 @@ static void run_script(FILE* in) {
             prepare_nfkd(s);
             uint8_t* gp = guard_place(s, n + 1);
             C.str = (const char*)gp; nfkd_for = C.str;
-            fprintf(out, "{\"e\":\"Begin\",\"op\":\"%s\",\"coin\":%d,\"lang\":\"%s\",\"wantlang\":%s,\"sreg\":%d", ex ? "DecodeX" : "Decode", (int)C.coin,
-                lid, C.want_lang ? "true" : "false", sr);
+            fprintf(out, "{\"e\":\"Begin\",\"op\":\"%s\",\"coin\":%d,\"lang\":\"%s\",\"wantlang\":%s,\"sreg\":%d,\"fail\":%u", ex ? "DecodeX" : "Decode", (int)C.coin,
+                lid, C.want_lang ? "true" : "false", sr, env.fail & 0xffff);
             emit_bytes("str", s, n > EVBUF ? EVBUF : n); fprintf(out, ",\"len\":%zu", n); eol();
             needles_text(nfkd_prepared, nfkd_prepared_n < 1000 ? nfkd_prepared_n : 1000);
             api_call(true);
@@ -1164,6 +1172,7 @@ int main(int argc, char** argv) {
     install_handlers();
     emit_start();
     run_script(in);
+    fprintf(out, "{\"e\":\"Reset\",\"name\":\"-end-\""); eol();
     reset_all();
     fprintf(out, "{\"e\":\"End\",\"complete\":true"); eol();
     fclose(out);
